@@ -24,6 +24,14 @@ pub struct CacheEntry {
     pub(crate) follow_set: FollowSet,
 }
 
+#[cfg(parol_verif)]
+impl CacheEntry {
+    /// Verification hook (only with `--cfg parol_verif`): read access to the cached FOLLOW sets.
+    pub fn verif_follow_set(&self) -> &FollowSet {
+        &self.follow_set
+    }
+}
+
 impl CacheEntry {
     /// If this method returns true, the follow set is empty.
     /// This is used for the follow cache to indicate that the follow set is not yet calculated.
